@@ -19,8 +19,8 @@ from hypothesis import strategies as st
 # feature switches: True = construct allowed
 DEFAULT_FEATURES = dict(
     boolop=True,  # and/or anywhere
-    boolop_in_operand=True,  # and/or nested inside comparison / arithmetic / call argument / aug-assign value / unary / subscript / attribute / ifexp
-    boolop_nested_operand=True,  # and/or whose non-first operand is itself an and/or
+    boolop_in_operand=True,  # a hoisted and/or that is an operand of a comparison / arithmetic / call argument / aug-assign value
+    boolop_nested_operand=True,  # a hoisted and/or whose non-first operand is itself an and/or
     loopvar_live=True,  # reading / pre-assigning a for target around a loop that may run zero times
     dead_code_after_jump=True,  # statements after break/continue/return in the same suite
     dead_stores=True,  # assignments / loops inside such dead code (pruning them changes which names are locals)
@@ -80,12 +80,17 @@ class _Gen:
             return self.pick(["None", "True", "False", "'s'"] + (["'__scfg_sentinel__'"] if self.f["shadow_builtins"] else []))
         return f"d({self.tag()})"
 
-    def expr(self, depth=0, operand=False, in_bool_tail=False):
-        """operand: we are inside a non-and/or compound expression."""
+    def expr(self, depth=0, operand=False, in_bool_tail=False, opaque=False):
+        """operand: we are an operand of a comparison / arithmetic / call
+        argument / aug-assignment value, i.e. of an expression the front end
+        descends into when it hoists and/or.  opaque: we are below an
+        expression the front end does not descend into (not, -, subscript,
+        attribute, conditional expression): Python itself evaluates whatever
+        stands there, so no known finding restricts it."""
         if depth > 2 or self.i(0, 9) < 3:
             return self.atom()
         kinds = ["cmp", "cmp", "bin", "call", "not"]
-        if self.f["boolop"] and (not operand or self.f["boolop_in_operand"]) and (not in_bool_tail or self.f["boolop_nested_operand"]):
+        if self.f["boolop"] and (opaque or ((not operand or self.f["boolop_in_operand"]) and (not in_bool_tail or self.f["boolop_nested_operand"]))):
             kinds += ["bool", "bool", "bool"]
         kinds += ["chaincmp", "neg", "sub", "attr"]
         if self.f["ifexp"]:
@@ -97,32 +102,32 @@ class _Gen:
         if k == "bool":
             n = self.pick([2, 2, 2, 3, 4])
             op = self.pick(["and", "or"])
-            parts = [self.expr(d, operand=False, in_bool_tail=False)]
+            parts = [self.expr(d, operand=False, in_bool_tail=False, opaque=opaque)]
             for _ in range(n - 1):
-                parts.append(self.expr(d, operand=False, in_bool_tail=True))
+                parts.append(self.expr(d, operand=False, in_bool_tail=True, opaque=opaque))
             return "(" + f" {op} ".join(parts) + ")"
         if k == "cmp":
-            return f"({self.expr(d, True)} {self.pick(['<', '==', '!=', '>=', '<=', '>'])} {self.expr(d, True)})"
+            return f"({self.expr(d, True, opaque=opaque)} {self.pick(['<', '==', '!=', '>=', '<=', '>'])} {self.expr(d, True, opaque=opaque)})"
         if k == "isnone":
-            return f"({self.expr(d, True)} {self.pick(['is', 'is not'])} None)"
+            return f"({self.expr(d, True, opaque=opaque)} {self.pick(['is', 'is not'])} None)"
         if k == "chaincmp":
-            return f"({self.expr(d, True)} < {self.expr(d, True)} <= {self.expr(d, True)})"
+            return f"({self.expr(d, True, opaque=opaque)} < {self.expr(d, True, opaque=opaque)} <= {self.expr(d, True, opaque=opaque)})"
         if k == "bin":
-            return f"({self.expr(d, True)} {self.pick(['+', '-', '*'])} {self.expr(d, True)})"
+            return f"({self.expr(d, True, opaque=opaque)} {self.pick(['+', '-', '*'])} {self.expr(d, True, opaque=opaque)})"
         if k == "not":
-            return f"(not {self.expr(d, True)})"
+            return f"(not {self.expr(d, True, opaque=True)})"
         if k == "neg":
-            return f"(-{self.expr(d, True)})"
+            return f"(-{self.expr(d, True, opaque=True)})"
         if k == "call":
             if self.i(0, 3) == 0:
-                return f"e({self.tag()}, {self.expr(d, True)}, {self.expr(d, True)})"
-            return f"e({self.tag()}, {self.expr(d, True)})"
+                return f"e({self.tag()}, {self.expr(d, True, opaque=opaque)}, {self.expr(d, True, opaque=opaque)})"
+            return f"e({self.tag()}, {self.expr(d, True, opaque=opaque)})"
         if k == "ifexp":
-            return f"({self.expr(d, True)} if {self.expr(d, True)} else {self.expr(d, True)})"
+            return f"({self.expr(d, True, opaque=True)} if {self.expr(d, True, opaque=True)} else {self.expr(d, True, opaque=True)})"
         if k == "sub":
-            return f"[{self.expr(d, True)}][0]"
+            return f"[{self.expr(d, True, opaque=True)}][0]"
         if k == "attr":
-            return f"box({self.expr(d, True)}).v"
+            return f"box({self.expr(d, True, opaque=True)}).v"
         return self.atom()
 
     def test(self, loop=False):
@@ -263,10 +268,49 @@ def _is_jump(s):
     return isinstance(s, (ast.Return, ast.Break, ast.Continue))
 
 
+def _hoist_scan(tree, tags):
+    """The two and/or findings concern only the and/or expressions the front
+    end hoists: those it reaches from a statement's value / an if or while test
+    by descending through and/or operands, comparison operands, arithmetic
+    operands and positional call arguments (AST2SCFGTransformer.handle_expression
+    descends into exactly these).  An and/or below anything else (not, -,
+    subscript, attribute, conditional expression, list, call function or
+    keyword, for-iterable, assignment target) stays inside its expression and is
+    evaluated by Python itself."""
+
+    def rec(node, under):
+        if isinstance(node, ast.BoolOp):
+            if under:
+                tags.add("boolop_in_operand")
+            for i, v in enumerate(node.values):
+                if i >= 1 and isinstance(v, ast.BoolOp):
+                    tags.add("boolop_nested_operand")
+                rec(v, False)
+        elif isinstance(node, ast.Compare):
+            rec(node.left, True)
+            for c in node.comparators:
+                rec(c, True)
+        elif isinstance(node, ast.BinOp):
+            rec(node.left, True)
+            rec(node.right, True)
+        elif isinstance(node, ast.Call):
+            for a in node.args:
+                rec(a, True)
+
+    for st_ in ast.walk(tree):
+        if isinstance(st_, (ast.Assign, ast.Expr, ast.Return)) and st_.value is not None:
+            rec(st_.value, False)
+        elif isinstance(st_, ast.AugAssign):
+            rec(st_.value, True)
+        elif isinstance(st_, (ast.If, ast.While)):
+            rec(st_.test, False)
+
+
 def features(src: str) -> set[str]:
     tree = ast.parse(src)
     fn = tree.body[0]
     tags = set()
+    _hoist_scan(tree, tags)
     if fn.body and isinstance(fn.body[0], (ast.While, ast.For)):
         tags.add("loop_first")
     assigned_before = set()
@@ -314,16 +358,10 @@ def features(src: str) -> set[str]:
         if isinstance(node, ast.BoolOp):
             tags.add("boolop")
             for v in node.values[1:]:
-                if isinstance(v, ast.BoolOp):
-                    tags.add("boolop_nested_operand")
                 if any(isinstance(n, ast.Call) for n in ast.walk(v)):
                     tags.add("boolop_effect_operand")
             if isinstance(node.values[0], ast.BoolOp):
                 tags.add("boolop_nested_first")
-        if isinstance(node, (ast.Compare, ast.BinOp, ast.Call, ast.UnaryOp, ast.Subscript, ast.Attribute, ast.IfExp, ast.AugAssign, ast.List)):
-            for ch in ast.iter_child_nodes(node):
-                if isinstance(ch, ast.BoolOp) or (isinstance(ch, ast.List) and any(isinstance(e, ast.BoolOp) for e in ch.elts)):
-                    tags.add("boolop_in_operand")
         if isinstance(node, ast.Compare) and len(node.ops) > 1:
             tags.add("chained_compare")
         if isinstance(node, ast.IfExp):
